@@ -1714,77 +1714,112 @@ func dependsOn(v, root ssa.Value, depth int) bool {
 // separate VarUInt, what the value is allowed to occupy is what remains of the
 // container after that VarUInt.
 func TabOverrun(p *load.Program) *report.RuleResult {
-	r := newResult("TAB-OVERRUN", "in bitstream.Next, wherever a length decoded by readVarUintLen is compared with the space left in the container, the space on that path has been reduced by the size of the length field (it depends on the second result of the same readVarUintLen call, or is measured again after it): otherwise a value may overrun its container by up to the size of its length field and the reader's own position checks panic", 1)
+	r := newResult("TAB-OVERRUN", "in bitstream.Next, wherever a length decoded by readVarUintLen is compared with the space left in the container, the space on every path on which that length field was read has been reduced by the field's size (it depends on the second result of the same readVarUintLen call) or is measured after it: otherwise a value may overrun its container by up to the size of its length field and the reader's own position checks panic", 1)
 	fn := p.Func(nil, "bitstream.Next")
 	if fn == nil {
 		missing(r, "bitstream.Next", "not found")
 		return r
 	}
 	name := p.FuncName(fn)
+	// the readVarUintLen calls whose first result flows (through phis) into v
+	var lengthCalls func(v ssa.Value, d int, out map[*ssa.Call]bool)
+	lengthCalls = func(v ssa.Value, d int, out map[*ssa.Call]bool) {
+		if d > 4 {
+			return
+		}
+		switch x := v.(type) {
+		case *ssa.Extract:
+			if c, ok := x.Tuple.(*ssa.Call); ok && x.Index == 0 {
+				if f := load.Unwrap(c.Call.StaticCallee()); f != nil && f.Name() == "readVarUintLen" {
+					out[c] = true
+				}
+			}
+		case *ssa.Phi:
+			for _, e := range x.Edges {
+				lengthCalls(e, d+1, out)
+			}
+		}
+	}
+	reach := func(a, b *ssa.BasicBlock) bool { return a == b || ssau.Reaches(a, b) }
+	// is the space value v right on the paths on which c was executed
+	var okSpace func(v ssa.Value, c *ssa.Call, d int) bool
+	okSpace = func(v ssa.Value, c *ssa.Call, d int) bool {
+		if d > 4 {
+			return false
+		}
+		if ph, ok := v.(*ssa.Phi); ok {
+			for i, e := range ph.Edges {
+				if !reach(c.Block(), ph.Block().Preds[i]) {
+					continue // c was not executed on the way in through this edge
+				}
+				if !okSpace(e, c, d+1) {
+					return false
+				}
+			}
+			return true
+		}
+		if dependsOn(v, c, 0) {
+			return true
+		}
+		in, ok := v.(ssa.Instruction)
+		if !ok || in.Block() == nil {
+			return false
+		}
+		// measured after the length field was read: its definition cannot come before c
+		if in.Block() == c.Block() {
+			return ssau.InstrIndex(in) > ssau.InstrIndex(c)
+		}
+		return !ssau.Reaches(in.Block(), c.Block())
+	}
 	n := 0
 	for _, b := range fn.Blocks {
 		for _, in := range b.Instrs {
-			ph, ok := in.(*ssa.Phi)
+			bo, ok := in.(*ssa.BinOp)
 			if !ok {
 				continue
 			}
-			for i, e := range ph.Edges {
-				ex, ok := e.(*ssa.Extract)
-				if !ok || ex.Index != 0 {
+			switch bo.Op {
+			case token.GTR, token.LSS, token.GEQ, token.LEQ:
+			default:
+				continue
+			}
+			for _, pair := range [][2]ssa.Value{{bo.X, bo.Y}, {bo.Y, bo.X}} {
+				lv, sv := pair[0], pair[1]
+				if _, isC := sv.(*ssa.Const); isC {
 					continue
 				}
-				c, ok := ex.Tuple.(*ssa.Call)
-				if !ok {
+				calls := map[*ssa.Call]bool{}
+				lengthCalls(lv, 0, calls)
+				if len(calls) == 0 {
 					continue
 				}
-				if f := load.Unwrap(c.Call.StaticCallee()); f == nil || f.Name() != "readVarUintLen" {
-					continue
-				}
-				// comparisons of this phi with a space value
-				for _, ref := range *ph.Referrers() {
-					bo, ok := ref.(*ssa.BinOp)
+				// the other operand must be a space: something derived from remaining()
+				if !strings.Contains(ssau.Path(sv), "remaining()") && !func() bool {
+					ph, ok := sv.(*ssa.Phi)
 					if !ok {
-						continue
+						return false
 					}
-					switch bo.Op {
-					case token.GTR, token.LSS, token.GEQ, token.LEQ:
-					default:
-						continue
-					}
-					other := bo.Y
-					if bo.Y == ssa.Value(ph) {
-						other = bo.X
-					}
-					if _, isC := other.(*ssa.Const); isC {
-						continue
-					}
-					n++
-					what := sprintf("decoded length %s %s", bo.Op, describeOperand(other))
-					okSpace := false
-					after := func(v ssa.Value) bool {
-						// measured again after the length field was read
-						mc, ok := v.(*ssa.Call)
-						if !ok {
-							return false
+					for _, e := range ph.Edges {
+						if strings.Contains(ssau.Path(e), "remaining()") {
+							return true
 						}
-						if mc.Block() == c.Block() {
-							return ssau.InstrIndex(mc) > ssau.InstrIndex(c)
-						}
-						return c.Block().Dominates(mc.Block())
 					}
-					switch o := other.(type) {
-					case *ssa.Phi:
-						if o.Block() == ph.Block() && i < len(o.Edges) {
-							okSpace = dependsOn(o.Edges[i], c, 0) || after(o.Edges[i])
-						}
-					default:
-						okSpace = dependsOn(other, c, 0) || after(other)
+					return false
+				}() {
+					continue
+				}
+				n++
+				what := sprintf("decoded length %s %s", bo.Op, describeOperand(sv))
+				bad := ""
+				for c := range calls {
+					if !okSpace(sv, c, 0) {
+						bad = instrPos(p, c)
 					}
-					if okSpace {
-						r.OK(name, instrPos(p, bo), what, "on the path that read the length field the space has been reduced by that field's size")
-					} else {
-						r.Bad(name, instrPos(p, bo), what, "on the path that read the length from a separate VarUInt the space compared is still the one measured before that VarUInt: a child may declare up to the size of its length field too much, the next read starts beyond the container's end and remaining()/StepOut panic")
-					}
+				}
+				if bad == "" {
+					r.OK(name, instrPos(p, bo), what, "on every path that read a length field the space has been reduced by that field's size or was measured after it")
+				} else {
+					r.Bad(name, instrPos(p, bo), what, "on a path that read the length from the separate VarUInt at "+bad+" the space compared is still the one measured before that VarUInt: a child may declare up to the size of its length field too much, the next read starts beyond the container's end and remaining()/StepOut panic")
 				}
 			}
 		}
@@ -2217,6 +2252,374 @@ func TabNextVisit(p *load.Program) *report.RuleResult {
 			} else {
 				r.Bad(name, instrPos(p, nexts[k]), what, "this function advances the reader without ever looking at the value's type: containers are skipped, not validated, so {a:[1, 2 3]} is accepted without an error")
 			}
+		}
+	}
+	return r
+}
+
+// ---------------------------------------------------------------------------
+// ORD-DANGLE-BIN
+
+// OrdDangleBin implements ORD-DANGLE-BIN: the binary bitstream reports the
+// end of a container only after it has looked whether a field name is pending.
+func OrdDangleBin(p *load.Program) *report.RuleResult {
+	r := newResult("ORD-DANGLE-BIN", "in bitstream.Next the end of the enclosing container (code = bitcodeEOF where the position has reached the container's end) is reported only on paths that have compared the state with bssBeforeValue, the state in which a struct's field name has been read and its value has not: a struct that ends right after a field name is malformed, not empty", 1)
+	fn := p.Func(nil, "bitstream.Next")
+	if fn == nil {
+		missing(r, "bitstream.Next", "not found")
+		return r
+	}
+	eof, ok1 := constOf(p, "bitcodeEOF")
+	bv, ok2 := constOf(p, "bssBeforeValue")
+	if !ok1 || !ok2 {
+		missing(r, "bitcodeEOF / bssBeforeValue", "constants not found")
+		return r
+	}
+	structCode, _ := constOf(p, "bitcodeStruct")
+	testsPending := func(in ssa.Instruction) bool {
+		bo, ok := in.(*ssa.BinOp)
+		if !ok || (bo.Op != token.EQL && bo.Op != token.NEQ) {
+			return false
+		}
+		for _, pair := range [][2]ssa.Value{{bo.X, bo.Y}, {bo.Y, bo.X}} {
+			k, ok := ssau.ConstInt(pair[1])
+			if !ok {
+				continue
+			}
+			if k == bv && strings.HasSuffix(ssau.Path(pair[0]), ".state") {
+				return true
+			}
+			// "is the container a struct at all" is the other half of the same test: only a
+			// struct has field names
+			if k == structCode && strings.HasSuffix(ssau.Path(pair[0]), ".code") {
+				return true
+			}
+		}
+		return false
+	}
+	name := p.FuncName(fn)
+	n := 0
+	for _, b := range fn.Blocks {
+		for _, in := range b.Instrs {
+			st, ok := in.(*ssa.Store)
+			if !ok {
+				continue
+			}
+			fa, ok := st.Addr.(*ssa.FieldAddr)
+			if !ok || fieldName2(fa) != "code" {
+				continue
+			}
+			if k, ok := ssau.ConstInt(st.Val); !ok || k != eof {
+				continue
+			}
+			// the end-of-container store: dominated by a comparison of the position with the container's end
+			var at *ssa.BasicBlock
+			for d := b.Idom(); d != nil; d = d.Idom() {
+				if bo, ok := blockIfCond(d).(*ssa.BinOp); ok && bo.Op == token.EQL && strings.HasSuffix(ssau.Path(bo.X), ".pos") && strings.Contains(ssau.Path(bo.Y), "end") {
+					if s := d.Succs[0]; s == b || s.Dominates(b) {
+						at = s
+					}
+				}
+			}
+			if at == nil {
+				continue // the end of the top-level stream
+			}
+			n++
+			what := "end of container reported"
+			// a path from the position test to the store that never looks at the pending-field-name state?
+			seen := map[*ssa.BasicBlock]bool{}
+			work := []*ssa.BasicBlock{at}
+			bad := false
+			for len(work) > 0 && !bad {
+				cur := work[len(work)-1]
+				work = work[:len(work)-1]
+				if seen[cur] {
+					continue
+				}
+				seen[cur] = true
+				stopped := false
+				for _, x := range cur.Instrs {
+					if testsPending(x) {
+						stopped = true
+						break
+					}
+					if x == ssa.Instruction(st) {
+						bad = true
+						break
+					}
+				}
+				if !stopped && !bad {
+					work = append(work, cur.Succs...)
+				}
+			}
+			if bad {
+				r.Bad(name, instrPos(p, st), what, "the end of the container is reported without looking whether a field name has been read and not yet followed by a value: DE 81 84 (a struct that holds only a field name) reads as an empty struct with no error")
+			} else {
+				r.OK(name, instrPos(p, st), what, "only after the state was compared with bssBeforeValue")
+			}
+		}
+	}
+	if n == 0 {
+		missing(r, "end-of-container exit in bitstream.Next", "no store of bitcodeEOF under a comparison of the position with the container's end")
+	}
+	return r
+}
+
+// ---------------------------------------------------------------------------
+// TAB-UTF8
+
+// TabUTF8 implements TAB-UTF8: both readers validate string text as UTF-8.
+func TabUTF8(p *load.Program) *report.RuleResult {
+	r := newResult("TAB-UTF8", "the function of each reader that hands string text to the caller (bitstream.ReadString for binary, tokenizer.ReadValue for text strings, long strings and quoted symbols) reaches a unicode/utf8 validity test, in itself or in an unexported helper: bytes that are not UTF-8 are a grammar violation in both encodings, and the two readers agree on it", 2)
+	for _, fnn := range []string{"bitstream.ReadString", "tokenizer.ReadValue"} {
+		fn := p.Func(nil, fnn)
+		if fn == nil {
+			missing(r, fnn, "not found")
+			continue
+		}
+		found := ""
+		for _, g := range helperClosure(p, fn, func(f *ssa.Function) bool { return f.Object() == nil || !f.Object().Exported() }, 2) {
+			for _, b := range g.Blocks {
+				for _, in := range b.Instrs {
+					c, ok := in.(ssa.CallInstruction)
+					if !ok {
+						continue
+					}
+					if f := c.Common().StaticCallee(); f != nil && f.Pkg != nil && f.Pkg.Pkg.Path() == "unicode/utf8" && strings.HasPrefix(f.Name(), "Valid") {
+						found = instrPos(p, in)
+					}
+				}
+			}
+		}
+		if found != "" {
+			r.OK(p.FuncName(fn), p.Pos(fn.Pos()), "string text validated as UTF-8", "utf8."+"Valid* at "+found)
+		} else {
+			r.Bad(p.FuncName(fn), p.Pos(fn.Pos()), "string text validated as UTF-8", "no UTF-8 validity test is reached: a string holding the lone byte 0xFF is handed to the caller with Err() == nil")
+		}
+	}
+	return r
+}
+
+// ---------------------------------------------------------------------------
+// ORD-LSTCLEAN
+
+// OrdLstClean implements ORD-LSTCLEAN: a writer serialises its symbol table
+// through its own methods only after it has put the pending field name and
+// annotations aside.
+func OrdLstClean(p *load.Program) *report.RuleResult {
+	r := newResult("ORD-LSTCLEAN", "every call by which a Writer implementation has a symbol table written through the writer itself (WriteTo(w), directly or through an unexported helper) is reached only after (*writer).clear(): the table is emitted with the writer's own FieldName/Annotation/Begin* methods, so a field name or annotation still pending at that moment would be attached to the $ion_symbol_table struct, which a reader then no longer recognises as a symbol table", 2)
+	isClear := func(in ssa.Instruction) bool {
+		if _, deferred := in.(*ssa.Defer); deferred {
+			return false // runs when the function returns, not here
+		}
+		c, ok := in.(ssa.CallInstruction)
+		if !ok {
+			return false
+		}
+		f := load.Unwrap(c.Common().StaticCallee())
+		return f != nil && f.Name() == "clear" && recvTypeName(f) == "writer"
+	}
+	writerTypes := map[string]bool{}
+	for _, T := range implementers(p, p.Ion, "Writer") {
+		writerTypes[T.Obj().Name()] = true
+	}
+	isWriteTo := func(in ssa.Instruction) bool {
+		c, ok := in.(ssa.CallInstruction)
+		if !ok {
+			return false
+		}
+		cc := c.Common()
+		name := ""
+		if cc.IsInvoke() {
+			name = cc.Method.Name()
+		} else if f := cc.StaticCallee(); f != nil {
+			name = f.Name()
+		}
+		if name != "WriteTo" {
+			return false
+		}
+		// the writer itself is the destination
+		for _, a := range cc.Args {
+			v := a
+			for i := 0; i < 2; i++ {
+				if mi, ok := v.(*ssa.MakeInterface); ok {
+					v = mi.X
+				}
+			}
+			if prm, ok := v.(*ssa.Parameter); ok && prm.Parent() != nil && len(prm.Parent().Params) > 0 && prm == prm.Parent().Params[0] && writerTypes[ssau.TypeName(prm.Type())] {
+				return true
+			}
+		}
+		return false
+	}
+	var need func(fn *ssa.Function, site ssa.Instruction, depth int) string
+	need = func(fn *ssa.Function, site ssa.Instruction, depth int) string {
+		if !ssau.ReachesAvoiding(fn, site, isClear, nil) {
+			return ""
+		}
+		if depth >= 3 || (fn.Object() != nil && fn.Object().Exported()) {
+			return sprintf("%s reaches it at %s without clear()", p.FuncName(fn), instrPos(p, site))
+		}
+		n := 0
+		for _, caller := range sortedFuncs(p) {
+			if p.InTest(caller) {
+				continue
+			}
+			for _, b := range caller.Blocks {
+				for _, in := range b.Instrs {
+					c, ok := in.(ssa.CallInstruction)
+					if !ok || load.Unwrap(c.Common().StaticCallee()) != fn {
+						continue
+					}
+					n++
+					if bad := need(caller, in, depth+1); bad != "" {
+						return bad
+					}
+				}
+			}
+		}
+		if n == 0 {
+			return sprintf("%s reaches it at %s without clear() and has no callers to establish it", p.FuncName(fn), instrPos(p, site))
+		}
+		return ""
+	}
+	for _, fn := range sortedFuncs(p) {
+		if !ScopeWriter.has(p, fn) || len(fn.Blocks) == 0 || !writerTypes[recvTypeName(fn)] {
+			continue
+		}
+		for _, b := range fn.Blocks {
+			for _, in := range b.Instrs {
+				if !isWriteTo(in) {
+					continue
+				}
+				name := p.FuncName(fn)
+				if bad := need(fn, in, 0); bad == "" {
+					r.OK(name, instrPos(p, in), "symbol table written through the writer itself", "reached only after clear(), here or in every caller")
+				} else {
+					r.Bad(name, instrPos(p, in), "symbol table written through the writer itself", bad+": Annotation(x) pending at that moment is written as x::$ion_symbol_table::{...}, which no reader takes for a symbol table")
+				}
+			}
+		}
+	}
+	return r
+}
+
+// ---------------------------------------------------------------------------
+// OWN-BSSCRATCH
+
+// OwnBSScratch implements OWN-BSSCRATCH: the binary bitstream keeps no data of
+// a value beyond that value.
+func OwnBSScratch(p *load.Program) *report.RuleResult {
+	r := newResult("OWN-BSSCRATCH", "every field of the binary bitstream that one of its methods writes is either part of the cursor (the input, the position, the state, the container stack) or is reset by clear(), which every step to another value passes (ORD-BSCLEAR): a scratch field that a Read* method fills and nothing resets lets one value's decoded data (a reused big.Int, calendar fields of the previous timestamp) show up in a later value or in a result the caller still holds", 3)
+	bs := p.Type(p.Ion, "bitstream")
+	if bs == nil {
+		missing(r, "bitstream", "type not found")
+		return r
+	}
+	st, ok := bs.Underlying().(*types.Struct)
+	if !ok {
+		missing(r, "bitstream", "not a struct")
+		return r
+	}
+	clearFn := methodOf(p, bs, "clear")
+	if clearFn == nil {
+		missing(r, "bitstream.clear", "method not found")
+		return r
+	}
+	cursor := map[string]string{"in": "the input", "pos": "the position in the input", "state": "the cursor state", "stack": "the stack of open containers"}
+	written := map[string]string{}
+	cleared := map[string]bool{}
+	for _, fn := range sortedFuncs(p) {
+		if p.InTest(fn) || recvTypeName(fn) != "bitstream" {
+			continue
+		}
+		for _, b := range fn.Blocks {
+			for _, in := range b.Instrs {
+				var addr ssa.Value
+				switch x := in.(type) {
+				case *ssa.Store:
+					addr = x.Addr
+				case *ssa.MapUpdate:
+					addr = x.Map
+				default:
+					continue
+				}
+				// the field of the receiver this write lands in (directly, or an element of it)
+				for d := 0; d < 4 && addr != nil; d++ {
+					switch a := addr.(type) {
+					case *ssa.FieldAddr:
+						if ssau.TypeName(a.X.Type()) == "bitstream" {
+							f := fieldName2(a)
+							if fn == clearFn {
+								cleared[f] = true
+							} else if _, seen := written[f]; !seen {
+								written[f] = p.FuncName(fn)
+							}
+							addr = nil
+						} else {
+							addr = a.X
+						}
+					case *ssa.IndexAddr:
+						addr = a.X
+					case *ssa.Slice:
+						addr = a.X
+					case *ssa.UnOp:
+						addr = a.X
+					default:
+						addr = nil
+					}
+				}
+			}
+		}
+	}
+	// a pointer field handed to a callee that fills it (b.bigint.SetBytes(bs)) counts as written
+	for _, fn := range sortedFuncs(p) {
+		if p.InTest(fn) || recvTypeName(fn) != "bitstream" || fn == clearFn {
+			continue
+		}
+		for _, b := range fn.Blocks {
+			for _, in := range b.Instrs {
+				c, ok := in.(ssa.CallInstruction)
+				if !ok {
+					continue
+				}
+				for _, a := range c.Common().Args {
+					v := a
+					if u, ok := v.(*ssa.UnOp); ok && u.Op == token.MUL {
+						v = u.X
+					}
+					if fa, ok := v.(*ssa.FieldAddr); ok && ssau.TypeName(fa.X.Type()) == "bitstream" {
+						f := fieldName2(fa)
+						byAddr := v == a // the field's own address is handed over (b.scratch.SetBytes(bs))
+						shared := false
+						switch st.Field(fa.Field).Type().Underlying().(type) {
+						case *types.Pointer, *types.Slice, *types.Array, *types.Map:
+							shared = true
+						}
+						if (byAddr || shared) && cursor[f] == "" {
+							if _, seen := written[f]; !seen {
+								written[f] = p.FuncName(fn)
+							}
+						}
+					}
+				}
+			}
+		}
+	}
+	for i := 0; i < st.NumFields(); i++ {
+		f := st.Field(i).Name()
+		w, isWritten := written[f]
+		if !isWritten {
+			continue
+		}
+		what := "field " + f
+		switch {
+		case cursor[f] != "":
+			r.OK("bitstream", p.Pos(st.Field(i).Pos()), what, "part of the cursor: "+cursor[f])
+		case cleared[f]:
+			r.OK("bitstream", p.Pos(st.Field(i).Pos()), what, "reset by clear()")
+		default:
+			r.Bad("bitstream", p.Pos(st.Field(i).Pos()), what, "written by "+w+" and never reset by clear(): what one value leaves there is seen when a later value is decoded, or keeps changing under a result the caller still holds")
 		}
 	}
 	return r
